@@ -27,8 +27,29 @@ type stateInfo struct {
 	hasDef   bool
 }
 
-// configs lists the root configurations of a tier. VERIF_C06_CFG="n0,workers,steps,k,newState;..." overrides (development aid).
+// pollInterval is the pre-confirmed poll interval of the polling-enabled configurations (juno's default).
+const pollInterval = 500 * time.Millisecond
+
+// polling turns a configuration into one with the pre-confirmed poller running and one injectable commit failure.
+func polling(c *config) *config { c.poll = pollInterval; c.dbFaults = 1; return c }
+
+// configs lists the root configurations of a tier. VERIF_C06_CFG="n0,workers,steps,k,newState[,polling];..." overrides
+// (development aid).
 func configs(tier string) []*config {
+	all := allConfigs(tier)
+	if os.Getenv("VERIF_C06_ONLY") == "polling" { // development aid: only the polling-enabled configurations of the tier
+		var out []*config
+		for _, c := range all {
+			if c.poll > 0 {
+				out = append(out, c)
+			}
+		}
+		return out
+	}
+	return all
+}
+
+func allConfigs(tier string) []*config {
 	mk := func(n0, workers, steps, k int, newState bool) *config {
 		return &config{n0: n0, workers: workers, steps: steps, k: k, newState: newState, maxLen: n0 + 1,
 			variants: []int{vCorruptField, vForgedRoot, vForgedParent}, holds: []byte{lStore, lReorg}}
@@ -36,11 +57,21 @@ func configs(tier string) []*config {
 	if s := os.Getenv("VERIF_C06_CFG"); s != "" {
 		var out []*config
 		for _, part := range strings.Split(s, ";") {
-			var n0, w, st, k, ns int
-			if _, err := fmt.Sscanf(part, "%d,%d,%d,%d,%d", &n0, &w, &st, &k, &ns); err != nil {
+			var n0, w, st, k, ns, pl int
+			if n, err := fmt.Sscanf(part, "%d,%d,%d,%d,%d,%d", &n0, &w, &st, &k, &ns, &pl); err != nil && n < 5 {
 				panic("bad VERIF_C06_CFG: " + part)
 			}
-			out = append(out, mk(n0, w, st, k, ns == 1))
+			c := mk(n0, w, st, k, ns == 1)
+			if pl >= 1 {
+				polling(c)
+			}
+			if pl == 2 {
+				noHolds(c)
+			}
+			if pl == 3 {
+				c.holds = []byte{lReorg}
+			}
+			out = append(out, c)
 		}
 		return out
 	}
@@ -62,6 +93,11 @@ func configs(tier string) []*config {
 			th(mk(6, 2, 1, 1, false), all), // catch-up with 2 fetchers, one reorg, <=1 deviation, all five listener classes
 			th(mk(6, 3, 1, 1, true), all),  // catch-up with 3 fetchers, new state backend, all five listener classes
 			th(mk(5, 2, 0, 3, false), all), // catch-up with 2 fetchers, no reorg, <=3 deviations
+			// pre-confirmed polling ENABLED (real preconfirmed.Poller on the stream context) + one injectable commit failure
+			polling(th(mk(3, 1, 1, 1, false), nil)),            // fresh node, 3-block chain, one reorg (incl. whole chain), <=1 deviation
+			polling(th(mk(2, 1, 1, 2, false), []byte{lReorg})), // the quick tier's configuration with <=2 deviations and holds
+			// on OnReorg (a tick between the revert of a block and the stream reset that follows it)
+			polling(th(mk(4, 2, 1, 1, true), nil)), // catch-up with 2 fetchers, new state backend, <=1 deviation
 		}
 	}
 	return []*config{
@@ -70,6 +106,10 @@ func configs(tier string) []*config {
 		mk(3, 1, 2, 0, false),          // two reorgs, default answers, every placement of both
 		mk(6, 2, 1, 1, true),           // catch-up with 2 fetchers, one reorg, <=1 deviation, new state backend
 		mk(5, 2, 0, 2, false),          // catch-up with 2 fetchers, no reorg, <=2 deviations (out-of-order answers, faults)
+		// pre-confirmed polling ENABLED (real preconfirmed.Poller on the stream context) + one injectable commit failure:
+		// fresh node, faults on any block incl. block 0, one reorg of any depth incl. the whole chain, <=1 deviation (no
+		// listener holds: a hold and a fault / a tick at a cost together need 2 deviations, which is the thorough tier)
+		polling(noHolds(mk(2, 1, 1, 1, false))),
 	}
 }
 
@@ -99,7 +139,10 @@ func TestCheck(t *testing.T) {
 		"default event = truthful answer to the oldest outstanding source request (cost 0); source steps (reorg at any fork height / growth) cost 0 "+
 		"but are bounded per configuration; every other enabled event (answer a younger request, error, stale latest header, corrupt-field / forged-root / "+
 		"forged-parent block, block of a pre-reorg branch, advance the poll ticker, hold the next sync.EventListener callback of a class at a height so that "+
-		"it parks inside the pipeline - e.g. between blockchain.Store and the notifications - until released for free) costs 1; ALL states reachable with <= k deviations are expanded with ALL "+
+		"it parks inside the pipeline - e.g. between blockchain.Store and the notifications - until released for free; in the configurations with "+
+		"pre-confirmed polling enabled also: error to a request of the real preconfirmed.Poller, one poll interval of virtual time passes, the "+
+		"database commit of the next Store of a block fails) costs 1; every replay ends with a shutdown (context cancel) at the state it reached and Run must return within "+
+		shutdownHorizon.String()+" of virtual time; ALL states reachable with <= k deviations are expanded with ALL "+
 		"their enabled events (successor = replay of the whole path in a fresh bubble + one event, states merged on a canonical key); from every distinct "+
 		"state a convergence run is executed. Non-trivial = a transition that stores or reverts a block")
 	r.Assume = append(r.Assume,
@@ -112,7 +155,15 @@ func TestCheck(t *testing.T) {
 		"listener holds: at most one callback armed or parked at a time; classes store+reorg (quick), all five (thorough); a parked callback always returns "+
 			"eventually (the convergence run releases it first); emissions are compared with the commit history as FIFO queues per feed (the "+
 			"interleaving BETWEEN the two feeds inside one step is not observable), announcements may lag only while a store callback is parked",
-		"a cancelled request returns ctx.Err() immediately (like an HTTP client); pre-confirmed polling is disabled (interval 0); no database faults",
+		"a cancelled request returns ctx.Err() immediately (like an HTTP client); pre-confirmed polling is disabled (interval 0) and there are no "+
+			"database faults except in the configurations marked preconfirmed-poll / db-commit-faults",
+		"polling-enabled configurations: interval "+pollInterval.String()+"; the source offers an EMPTY pre-confirmed block on top of its current tip "+
+			"(full block, or no-change when the poller already holds it; by-number requests for other heights fail) or an error; time never "+
+			"advances while a poller request is outstanding (fewer than 120 single-interval advances per path, so the phase of the minute "+
+			"ticker is not observable); at most one injected commit failure per path (the batch of the next Store of a block returns an "+
+			"error from Write and applies nothing; RevertHead commits are never failed)",
+		"a replay whose Synchronizer does not stop is reported (sync-does-not-stop) and its bubble abandoned; worker processes are replaced "+
+			"after "+fmt.Sprint(maxAbandoned)+" abandoned bubbles",
 		"convergence run: the source no longer changes, answers the oldest request truthfully, a minute passes whenever the configuration repeats; "+
 			"verdict 'stuck' only when the configuration repeats across a time advance (or after "+fmt.Sprint(convHorizon)+" steps)")
 
@@ -134,78 +185,92 @@ func TestCheck(t *testing.T) {
 	stop := false
 	t0 := time.Now()
 	for d := 0; d <= maxK && !stop; d++ {
-		frontier := buckets[d]
+		level := buckets[d]
 		buckets[d] = nil
-		for layer := 0; len(frontier) > 0 && !stop; layer++ {
-			if trace {
-				fmt.Printf("devs=%d layer=%d nodes=%d states=%d t=%.1fs\n", d, layer, len(frontier), len(visited), time.Since(t0).Seconds())
+		// Within a deviation level the configurations are independent of each other. The polling-enabled ones (added
+		// last) are explored after the others, so that a time-budget cut on a loaded machine takes from them first and
+		// leaves the older configurations exactly what they had before.
+		for pass := 0; pass < 2 && !stop; pass++ {
+			var frontier []node
+			for _, nd := range level {
+				if (cfgs[nd.cfg].poll > 0) == (pass == 1) {
+					frontier = append(frontier, nd)
+				}
 			}
-			results, err := pl.run(frontier, false, r.OutOfTime)
-			if err != nil {
-				r.Infra("%v", err)
-			}
-			var next []node
-			for i := range results {
-				res := &results[i]
-				nd := frontier[i]
-				c := cfgs[nd.cfg]
-				if res.infra == "timeout" {
-					r.Incomplete(fmt.Sprintf("time budget hit at deviation level %d, BFS layer %d (%d nodes in that layer)", d, layer, len(frontier)))
-					stop = true
-					continue
+			for layer := 0; len(frontier) > 0 && !stop; layer++ {
+				if trace {
+					fmt.Printf("devs=%d layer=%d nodes=%d states=%d t=%.1fs\n", d, layer, len(frontier), len(visited), time.Since(t0).Seconds())
 				}
-				if res.infra != "" {
-					r.Infra("%s [config %s path=%v]", res.infra, c, pathStrings(nd.path))
+				results, err := pl.run(frontier, false, r.OutOfTime)
+				if err != nil {
+					r.Infra("%v", err)
 				}
-				counts[nd.cfg].transitions++
-				r.Add("evaluations", 1)
-				for k, v := range res.stats {
-					r.Add("last_step_"+k, v)
-				}
-				for _, v := range res.viols {
-					v.detail["deviations"] = d
-					r.Violate(v.key, v.detail)
-				}
-				r.Outcome(res.label)
-				if strings.ContainsAny(res.label[strings.Index(res.label, ">")+1:], "SR") {
-					nontrivial++
-				}
-				key := h16(fmt.Sprintf("%d|%x", nd.cfg, res.key))
-				if nd.isDef {
-					if pi := visited[nd.parent]; pi != nil {
-						pi.defChild, pi.hasDef = key, true
-					}
-				}
-				if _, ok := visited[key]; ok {
-					continue
-				}
-				visited[key] = &stateInfo{cfg: nd.cfg, path: nd.path, devs: uint8(d)}
-				counts[nd.cfg].states++
-				counts[nd.cfg].perDev[d]++
-				if res.depth > counts[nd.cfg].maxDepth {
-					counts[nd.cfg].maxDepth = res.depth
-				}
-				if cat := sampleCategory(res.label, nd.path); cat != "" && sampled[cat] < 1 && len(sampled) < 6 {
-					sampled[cat]++
-					r.Sample(map[string]any{"category": cat, "config": c.String(), "path": pathStrings(nd.path), "state": res.desc})
-				}
-				for j, e := range res.enabled {
-					cost := int(res.costs[j])
-					if d+cost > c.k {
+				var next []node
+				for i := range results {
+					res := &results[i]
+					nd := frontier[i]
+					c := cfgs[nd.cfg]
+					if res.infra == "timeout" {
+						r.Incomplete(fmt.Sprintf("time budget hit at deviation level %d, BFS layer %d (%d nodes in that layer)", d, layer, len(frontier)))
+						stop = true
 						continue
 					}
-					p := make([]evt, len(nd.path)+1)
-					copy(p, nd.path)
-					p[len(p)-1] = e
-					child := node{cfg: nd.cfg, path: p, parent: key, isDef: j == 0}
-					if cost == 0 {
-						next = append(next, child)
-					} else {
-						buckets[d+1] = append(buckets[d+1], child)
+					if res.infra != "" {
+						r.Infra("%s [config %s path=%v]", res.infra, c, pathStrings(nd.path))
+					}
+					counts[nd.cfg].transitions++
+					r.Add("evaluations", 1)
+					for k, v := range res.stats {
+						r.Add("last_step_"+k, v)
+					}
+					for _, v := range res.viols {
+						v.detail["deviations"] = d
+						r.Violate(v.key, v.detail)
+					}
+					r.Outcome(res.label)
+					if strings.ContainsAny(res.label[strings.Index(res.label, ">")+1:], "SR") {
+						nontrivial++
+					}
+					key := h16(fmt.Sprintf("%d|%x", nd.cfg, res.key))
+					if nd.isDef {
+						if pi := visited[nd.parent]; pi != nil {
+							pi.defChild, pi.hasDef = key, true
+						}
+					}
+					if _, ok := visited[key]; ok {
+						continue
+					}
+					visited[key] = &stateInfo{cfg: nd.cfg, path: nd.path, devs: uint8(d)}
+					counts[nd.cfg].states++
+					counts[nd.cfg].perDev[d]++
+					if res.depth > counts[nd.cfg].maxDepth {
+						counts[nd.cfg].maxDepth = res.depth
+					}
+					if cat := sampleCategory(res.label, nd.path); cat != "" && sampled[cat] < 1 && len(sampled) < 6 {
+						sampled[cat]++
+						r.Sample(map[string]any{"category": cat, "config": c.String(), "path": pathStrings(nd.path), "state": res.desc})
+					}
+					if res.hung {
+						r.Add("states_in_which_shutdown_hangs", 1) // reported above; the state is expanded like any other
+					}
+					for j, e := range res.enabled {
+						cost := int(res.costs[j])
+						if d+cost > c.k {
+							continue
+						}
+						p := make([]evt, len(nd.path)+1)
+						copy(p, nd.path)
+						p[len(p)-1] = e
+						child := node{cfg: nd.cfg, path: p, parent: key, isDef: j == 0}
+						if cost == 0 {
+							next = append(next, child)
+						} else {
+							buckets[d+1] = append(buckets[d+1], child)
+						}
 					}
 				}
+				frontier = next
 			}
-			frontier = next
 		}
 	}
 	// Convergence. The convergence policy's first move in a state is that state's default event, whose successor is
